@@ -401,6 +401,7 @@ class C20(P.Property):
 
                             def body():
                                 with d as d3:
+                                    d3[b"k0"] = b"set-in-with"  # (a dict keeps what was done before the statement that raised)
                                     if how == "missing":
                                         d3[b"never-set"]
                                     elif how == "del":
@@ -410,6 +411,9 @@ class C20(P.Property):
                                     reached.append(1)
                             o = outcome(body)
                             closed = True
+                            model[b"k0"] = b"set-in-with"
+                            ba_keys.discard(b"k0")
+                            mutated = True
                             want = ("exc", "TypeError" if how == "bad" else "KeyError")
                             if o != want or reached:
                                 viol.append(V("C20.refuse", "MODEL_MISMATCH", f"step {si}: a refused operation ({how}) inside a with-block gave {o!r:.60}"
